@@ -116,10 +116,13 @@ def include_request_headers(
 
     if b"host" not in headers_set:
         default_port = DEFAULT_PORTS.get(url.scheme)
+        host = url.host
+        if b":" in host and not host.startswith(b"["):
+            host = b"[%b]" % host
         if url.port is None or url.port == default_port:
-            header_value = url.host
+            header_value = host
         else:
-            header_value = b"%b:%d" % (url.host, url.port)
+            header_value = b"%b:%d" % (host, url.port)
         headers = [(b"Host", header_value)] + headers
 
     if (
@@ -302,9 +305,12 @@ class URL:
         )
 
     def __bytes__(self) -> bytes:
+        host = self.host
+        if b":" in host and not host.startswith(b"["):
+            host = b"[%b]" % host
         if self.port is None:
-            return b"%b://%b%b" % (self.scheme, self.host, self.target)
-        return b"%b://%b:%d%b" % (self.scheme, self.host, self.port, self.target)
+            return b"%b://%b%b" % (self.scheme, host, self.target)
+        return b"%b://%b:%d%b" % (self.scheme, host, self.port, self.target)
 
     def __repr__(self) -> str:
         return (
